@@ -459,6 +459,17 @@ void htp_config_set_compression_bomb_limit(htp_cfg_t *cfg, size_t bomblimit);
 void htp_config_set_compression_time_limit(htp_cfg_t *cfg, size_t useclimit);
 
 /**
+ * Configures the maximum number of header fields LibHTP will accept in one request or
+ * response. Every header line is looked up among the fields seen so far, so without a
+ * limit the work for one message is quadratic in the number of distinct field names.
+ * A message with more fields fails its stream with an error. The default is 1024.
+ *
+ * @param[in] cfg
+ * @param[in] limit
+ */
+void htp_config_set_number_headers_limit(htp_cfg_t *cfg, uint32_t limit);
+
+/**
  * Configures the maximum number of tx LibHTP will have per connection.
  *
  * @param[in] cfg
